@@ -27,9 +27,14 @@ CHECKS = {
                      'texts (all code points, length <= 3; thorough 4) and ALL positions/counts from below 1 to beyond the length; identities asserted on the implementation; '
                      'library and formula forms; numbers/booleans as text.',
                 note=XH_NOTE + ' FIND is bounded tighter (|s| <= 2 unicode; |s| <= 3..4 over the alphabet abA) because of z3 string cost.'),
+    'C06': dict(engine='XH', technique='symbolic execution (CrossHair+z3) of the real evaluator over all dependency graphs on <= 3 (thorough 4) cells selected by symbolic choices, vs a DFS reachability oracle',
+                text='Bounded symbolic model checking: for every dependency graph on 3 cells (13 formula alternatives per cell incl. self/repeated/range references; thorough: 4 cells, 11 alternatives) '
+                     'and every start cell, with ALL integer constants: cycle reachable <=> an exception mentioning a cycle is raised within a fixed frame budget; otherwise the reference value and never '
+                     'a cycle report; cycles of every length/tail/entry incl. through ranges; failure-message length polynomial in the chain depth (d <= 20).',
+                note=XH_NOTE + ' Time is measured in interpreter frames (recursion budget), not wall-clock; memory is bounded by RLIMIT_AS of the worker.'),
 }
 NA = {
     'C12': 'persist/restore is ten lines around jsonpickle -> json (C encoder) -> gzip/file I/O; no repo-side kernel a solver can quantify over (symbolic values are realised or pickled as proxy objects at the codec boundary)',
 }
-for _p in ['C03', 'C04', 'C05', 'C06', 'C07', 'C08', 'C10', 'C11', 'C13', 'C14', 'C15', 'C16', 'C18', 'C19', 'C20']:
+for _p in ['C03', 'C04', 'C05', 'C07', 'C08', 'C10', 'C11', 'C13', 'C14', 'C15', 'C16', 'C18', 'C19', 'C20']:
     NA.setdefault(_p, 'check not built yet in this revision (planned: see DESIGN.md §4)')
